@@ -127,6 +127,8 @@ pub struct ConsLog {
     pub held:    Mutex<Vec<Item>>,
     pub stream_id: AtomicU32,
     pub tid:     AtomicU32,
+    /// (stamp before, stamp after) the stream was dropped by its consumer
+    pub drop_span: Mutex<Option<(u64, u64)>>,
 }
 impl ConsLog {
     pub fn ids(&self) -> Vec<u64> { self.yields.lock().unwrap().iter().map(|y| y.0).collect() }
@@ -172,7 +174,9 @@ pub fn driven_consumer_body(mut strm: Box<dyn Strm>, fresh_wakers: bool, hold: H
         }
         log.wakes.store(flag.wakes(), SeqCst);
         // the stream is dropped here (by the thread that polled it)
+        let t0 = stamp();
         drop(strm);
+        *log.drop_span.lock().unwrap() = Some((t0, stamp()));
     })
 }
 
@@ -201,7 +205,9 @@ pub fn polling_consumer_body(mut strm: Box<dyn Strm>, hold: Hold, log: Arc<ConsL
                 }
             }
         }
+        let t0 = stamp();
         drop(strm);
+        *log.drop_span.lock().unwrap() = Some((t0, stamp()));
     })
 }
 
